@@ -193,6 +193,26 @@ def run(prop, replay_file=None):
             if not r.ok:
                 rep.machinery.append("the specification itself violates %s on instance %s (spec error, not a code defect)"
                                      % (r.violated, name))
+        if prop == "C03":
+            # one position in isolation: every sign pattern of up to MaxFills fills with interleaved marks
+            with open(os.path.join(w, "pos.cfg"), "w") as fh:
+                fh.write("SPECIFICATION Spec\nCONSTANT MaxFills = %d\nINVARIANT C03_Identities\nPROPERTY C03_Mark\nVIEW View\n"
+                         "CHECK_DEADLOCK FALSE\n" % (4 if t == "quick" else 6))
+            try:
+                r = tlc.run(w, "MC_Position", "pos.cfg", workers=16, timeout=3000)
+                rep.add_mc(r, "MC_Position")
+                if not r.ok:
+                    rep.machinery.append("Position.tla itself violates %s (spec error)" % r.violated)
+                # vacuity: flips through zero and close-to-zero-and-reopen must be reachable
+                for probe in ("NeverFlipped", "NeverReopened"):
+                    with open(os.path.join(w, "probe.cfg"), "w") as fh:
+                        fh.write("SPECIFICATION Spec\nCONSTANT MaxFills = 4\nINVARIANT %s\nVIEW View\nCHECK_DEADLOCK FALSE\n" % probe)
+                    rp = tlc.run(w, "MC_Position", "probe.cfg", workers=4, timeout=600)
+                    rep.cov.setdefault("vacuity_probes", {})[probe] = "reached" if rp.violated == probe else "NOT REACHED"
+                    if rp.violated != probe:
+                        rep.machinery.append("vacuity: %s was not refuted - the control path is not exercised" % probe)
+            except tlc.TLCError as e:
+                rep.machinery.append("TLC failed on MC_Position: %s" % str(e)[-1200:])
         # 2. spec -> code: simulated behaviours
         feats_all = {}
         nbeh = 0
